@@ -14,6 +14,9 @@ import FqModel.Zip
       (inflate results are taken from the truth: library code; "?" = a token the model does not predict:
       date renderings, the harness' LZW expansion); predicate: the projection against the generator's ground
       truth and the stored checksums against the Lean `crc32`/`adler32`/`crcMsb`. bzip2: predicate only.
+  `nst <path> <hex outer file> <inner format> <hex inner file> <truth…>` TAB `<projection of the inner tree>`
+      a container inside containers (tar member / zip member / gzip payload, up to two levels), reached by fq's probing;
+      judged exactly like `dec` on the inner file.
   `cor <format> <hex file> <pos>:<xor>:<kind>…` TAB `<code>…`
       predicate "never a clean result": kind d: E|I; kind z,a: E|I|C=; kind u (zip/tar, checksum
       never verified by fq): E|I, a clean result is the known finding `checksum-not-validated`.
@@ -913,31 +916,44 @@ def stepCor (format : String) (file : Bytes) (cs obs : Toks) : String :=
 
 /-! ### dispatch -/
 
+/-- a `dec` line, or (nested = true) an `nst` line: the same judgement on the inner file -/
+def stepDec (nested : Bool) (format fhex : String) (truth : Toks) (obs : String) : String :=
+  match unhex fhex with
+  | none => "BADOP file hex"
+  | some file =>
+    let o := words obs
+    if o.head? == some "panic" then s!"PROPFAIL {format}: fq panicked"
+    else if o.head? == some "err" && o.contains "JQERR" then
+      s!"PROPFAIL {format}: decode error on an intact file (the tree is partial, the projection could not be completed)"
+    else if nested && (o.contains "JQERR" || o.head? == some "noline") then
+      -- a decode that fails at top level (decode error shown) makes the probe fail when nested: the member stays raw.
+      -- The same classes are excused as at top level.
+      if format == "gzip" && truth.any (fun w => w.startsWith "flg=" && w != "flg=0") then
+        "KNOWN gzip-flags-bit-order nested member with FLG != 0 is not recognised as gzip"
+      else if format == "bzip2" && kvNat truth "blocks" != some 1 then
+        "KNOWN bzip2-single-block-only nested stream is not recognised as bzip2"
+      else if format == "tar" && kvNat truth "n" == some 0 then "OK"
+      else s!"PROPFAIL {format}: the nested container is not decoded as {format} (probing from the parent container), or its tree lacks fields"
+    else if o.head? == some "noline" || o.contains "JQERR" then s!"BADOP projection failed: {obs.take 200}"
+    else if format == "gzip" then stepGzip file truth o
+    else if format == "tar" then stepTar file truth o
+    else if format == "png" then stepPng file truth o
+    else if format == "ogg_page" then verdictWith (oggProp file truth o) (oggModel file) o
+    else if format == "zip" then
+      let (pre, segs) := splitAt (· == "F") truth
+      match segs.mapM (fun s => zipTruth s.2) with
+      | some ts => verdictWith (zipProp file pre ts o) (zipModel file (ts.map fun t => (t.off, t.clen, t.data))) o
+      | none => "BADOP zip truth"
+    else if format == "gif" then verdictWith (gifProp truth o) (gifModel file) o
+    else if format == "wav" then verdictWith (wavProp file truth o) (wavModel file) o
+    else if format == "bzip2" then bzip2Prop truth o
+    else "BADOP format"
+
 def stepC15 (op obs : String) : String :=
   match words op with
   | ["crc", name, bits, init, hex] => stepCrc name bits init hex obs
-  | "dec" :: format :: fhex :: truth =>
-    match unhex fhex with
-    | none => "BADOP file hex"
-    | some file =>
-      let o := words obs
-      if o.head? == some "panic" then s!"PROPFAIL {format}: fq panicked"
-      else if o.head? == some "err" && o.contains "JQERR" then
-        s!"PROPFAIL {format}: decode error on an intact file (the tree is partial, the projection could not be completed)"
-      else if o.head? == some "noline" || o.contains "JQERR" then s!"BADOP projection failed: {obs.take 200}"
-      else if format == "gzip" then stepGzip file truth o
-      else if format == "tar" then stepTar file truth o
-      else if format == "png" then stepPng file truth o
-      else if format == "ogg_page" then verdictWith (oggProp file truth o) (oggModel file) o
-      else if format == "zip" then
-        let (pre, segs) := splitAt (· == "F") truth
-        match segs.mapM (fun s => zipTruth s.2) with
-        | some ts => verdictWith (zipProp file pre ts o) (zipModel file (ts.map fun t => (t.off, t.clen, t.data))) o
-        | none => "BADOP zip truth"
-      else if format == "gif" then verdictWith (gifProp truth o) (gifModel file) o
-      else if format == "wav" then verdictWith (wavProp file truth o) (wavModel file) o
-      else if format == "bzip2" then bzip2Prop truth o
-      else "BADOP format"
+  | "dec" :: format :: fhex :: truth => stepDec false format fhex truth obs
+  | "nst" :: _path :: _outer :: format :: fhex :: truth => stepDec true format fhex truth obs
   | "cor" :: format :: fhex :: cs =>
     match unhex fhex with
     | none => "BADOP file hex"
